@@ -19,8 +19,10 @@ pub assume_specification [i64::saturating_add_unsigned] (a: i64, b: u64) -> (r: 
 pub struct Clock { pub unix_timestamp: i64 }
 pub struct PriceProviderKind { pub kind: u8 }
 /// Carrier for the two per-provider reads of TokenConfig (None = the provider has no feed config => error)
-pub struct TokenConfig { pub timestamp_adjustment: Option<u32>, pub max_deviation_factor: Option<Option<u128>> }
+pub struct TokenConfig { pub timestamp_adjustment: Option<u32>, pub max_deviation_factor: Option<Option<u128>>, pub enabled: bool, pub synthetic: bool }
 impl TokenConfig {
+    pub fn is_enabled(&self) -> (r: bool) ensures r == self.enabled { self.enabled }
+    pub fn is_synthetic(&self) -> (r: bool) ensures r == self.synthetic { self.synthetic }
     pub fn timestamp_adjustment(&self, _p: &PriceProviderKind) -> (r: Result<u32, E>)
         ensures r.is_ok() == self.timestamp_adjustment.is_some(), r.is_ok() ==> r.unwrap() == self.timestamp_adjustment.unwrap()
     { match self.timestamp_adjustment { Some(x) => Ok(x), None => Err(E::Other) } }
@@ -153,11 +155,13 @@ pub proof fn lemma_stored_price_ordered(price: UPrice)
 /// the deviation is not a multiple of it (witness below); Verus rejects it on every run and the runner
 /// reports it as the listed known finding. It is kept as its own obligation: no other failure of C24 is
 /// suppressed by it.
+//@own-begin
 pub proof fn finding_deviation_is_rounded_up_to_price_step(dev: int, step: int, reference: int, p: int)
     requires dev > 0, step >= 1, adist(p, reference) <= dev_rounded(dev, step)
     ensures adist(p, reference) <= dev
 {
 }
+//@own-end
 /// machine-checked witness that the literal clause fails: reference 1000 (value 100, multiplier 1 => step 10),
 /// factor 0.5% => configured deviation 5, max price 1010 (value 101): accepted tolerance is 10.
 pub proof fn finding_witness()
